@@ -43,6 +43,13 @@ func (sc *StepCtx) info() stepInfo {
 }
 
 func (m *Mon) updateLedgers(sc *StepCtx) {
+	if sc.Idx >= 0 {
+		for bk, b := range sc.Post.Bindings {
+			if pb, had := sc.Pre.Bindings[bk]; had && pb.Available && !b.Available {
+				m.disabledAt[bk] = sc.Pre.Time
+			}
+		}
+	}
 	pre, post := sc.Pre, sc.Post
 	si := sc.info()
 
